@@ -28,22 +28,17 @@ structure St where
   results : Array (Option Ty) := #[]
   out : Array String := #[]
 
-def refOf (st : St) (s : String) : Option Ty :=
-  if s.startsWith "p" then (s.drop 1).toNat?.map Ty.prim
-  else if s.startsWith "r" then
-    match (s.drop 1).toNat? with
-    | some k => match st.results[k]? with
-      | some (some t) => some t
-      | _ => none
-    | none => none
+def argOfStr (s : String) : Option Ctx.Arg :=
+  if s.startsWith "p" then (s.drop 1).toNat?.map Ctx.Arg.prim
+  else if s.startsWith "r" then (s.drop 1).toNat?.map Ctx.Arg.res
   else none
 
-def refsOf (st : St) : List Sexp → Option (List Ty)
+def argsOfSexp : List Sexp → Option (List Ctx.Arg)
   | [] => some []
   | .atom s :: rest => do
-    let t ← refOf st s
-    let r ← refsOf st rest
-    pure (t :: r)
+    let a ← argOfStr s
+    let r ← argsOfSexp rest
+    pure (a :: r)
   | _ => none
 
 def hexes : List Sexp → Option (List Bytes)
@@ -54,13 +49,13 @@ def hexes : List Sexp → Option (List Bytes)
     pure (b :: r)
   | _ => none
 
-def fieldsOf (st : St) : List Sexp → Option (List (Name × Ty))
+def fieldArgs : List Sexp → Option (List (Name × Ctx.Arg))
   | [] => some []
   | .list [.atom n, .atom r] :: rest => do
     let n ← bytesOfHex n
-    let t ← refOf st r
-    let fs ← fieldsOf st rest
-    pure ((n, t) :: fs)
+    let a ← argOfStr r
+    let fs ← fieldArgs rest
+    pure ((n, a) :: fs)
   | _ => none
 
 def answer (c : Ctx) (t : Ty) : String :=
@@ -68,54 +63,40 @@ def answer (c : Ctx) (t : Ty) : String :=
   | some id => s!"{id},{hexOfBytes (encodeTV t)}"
   | none => s!"noid,{hexOfBytes (encodeTV t)}"
 
-def push (st : St) (ci : Nat) (c : Ctx) (t : Option Ty) : St :=
-  { ctxs := st.ctxs.set! ci c, results := st.results.push t,
-    out := st.out.push (match t with | some t => answer c t | none => "err") }
+/-- parse one request into an operation of the model (`Ctx.Op`) -/
+def opOf (st : St) (kind : String) (args : List Sexp) : Option Ctx.Op :=
+  match kind, args with
+  | "rec", fs => (fieldArgs fs).map Ctx.Op.record
+  | "arr", [.atom r] => (argOfStr r).map Ctx.Op.array
+  | "set", [.atom r] => (argOfStr r).map Ctx.Op.set
+  | "err", [.atom r] => (argOfStr r).map Ctx.Op.error
+  | "map", [.atom k, .atom v] => do pure (Ctx.Op.map (← argOfStr k) (← argOfStr v))
+  | "union", rs => (argsOfSexp rs).map Ctx.Op.union
+  | "enum", hs => (hexes hs).map Ctx.Op.enum
+  | "named", [.atom n, .atom r] => do pure (Ctx.Op.named (← bytesOfHex n) (← argOfStr r))
+  | "byvalue", [.atom h] => (bytesOfHex h).map Ctx.Op.byValue
+  | "translate", [.atom r] => do
+    let a ← argOfStr r
+    let t ← Ctx.argOf st.results.toList a
+    pure (Ctx.Op.translate t)
+  | "typevalue", [.atom r] => (argOfStr r).map Ctx.Op.typeValue
+  | "typedef", [.atom n] => (bytesOfHex n).map Ctx.Op.typeDef
+  | _, _ => none
 
-/-- one op; `none` = malformed request -/
+/-- one op, executed by the model's `Ctx.exec`; `none` = malformed request -/
 def step (st : St) (op : Sexp) : Option St :=
   match op with
   | .list (.atom kind :: .atom cs :: args) => do
     let ci ← cs.toNat?
     let c ← st.ctxs[ci]?
-    match kind, args with
-    | "rec", fs => do
-      let fs ← fieldsOf st fs
-      let r := c.lookupRecord fs
-      pure (push st ci r.2 r.1)
-    | "arr", [.atom r] => do let t ← refOf st r; let x := c.lookupArray t; pure (push st ci x.2 (some x.1))
-    | "set", [.atom r] => do let t ← refOf st r; let x := c.lookupSet t; pure (push st ci x.2 (some x.1))
-    | "err", [.atom r] => do let t ← refOf st r; let x := c.lookupError t; pure (push st ci x.2 (some x.1))
-    | "map", [.atom k, .atom v] => do
-      let k ← refOf st k; let v ← refOf st v
-      let x := c.lookupMap k v; pure (push st ci x.2 (some x.1))
-    | "union", rs => do
-      let ts ← refsOf st rs
-      let x := c.lookupUnion ts; pure (push st ci x.2 (some x.1))
-    | "enum", hs => do
-      let syms ← hexes hs
-      let x := c.lookupEnum syms; pure (push st ci x.2 (some x.1))
-    | "named", [.atom n, .atom r] => do
-      let n ← bytesOfHex n; let t ← refOf st r
-      let x := c.lookupNamed n t; pure (push st ci x.2 x.1)
-    | "byvalue", [.atom h] => do
-      let tv ← bytesOfHex h
-      let x := c.lookupByValue tv; pure (push st ci x.2 x.1)
-    | "translate", [.atom r] => do
-      let t ← refOf st r
-      let x := c.translate t; pure (push st ci x.2 x.1)
-    | "typevalue", [.atom r] => do
-      let t ← refOf st r
-      let x := c.lookupTypeValue t
-      pure { ctxs := st.ctxs.set! ci x.2, results := st.results.push none,
-             out := st.out.push (match x.1 with | some b => s!"tv,{hexOfBytes b}" | none => "err") }
-    | "typedef", [.atom n] => do
-      let n ← bytesOfHex n
-      pure (push st ci c (c.lookupTypeDef n))
-    | "lookupid", [.atom n] => do
-      let n ← n.toNat?
-      pure (push st ci c (c.lookupType n))
-    | _, _ => none
+    let o ← opOf st kind args
+    let r := c.exec st.results.toList o
+    let c' := r.2.2
+    let out := match r.1, r.2.1 with
+      | some t, _ => answer c' t
+      | none, some b => s!"tv,{hexOfBytes b}"
+      | none, none => "err"
+    pure { ctxs := st.ctxs.set! ci c', results := st.results.push r.1, out := st.out.push out }
   | _ => none
 
 def runHist (ops : List Sexp) : Option St := ops.foldlM step {}
